@@ -188,6 +188,65 @@ func checkOperandOrder(c *Ctx, ev *evaluator) {
 			c.Check("R11.2", fmt.Sprintf("%s: the value of operand %d (%s) is used", key, k, s), cs.clause.Pos(), used[k],
 				"the action ignores a value-carrying operand: that part of the source is missing from the typed tree")
 		}
+		// (c) a value is passed through unchanged only where the production adds nothing to the tree
+		punct := map[string]bool{"(": true, ")": true, "<": true, ">": true, ";": true}
+		carriers, others := 0, true
+		for _, sy := range cs.prod.body {
+			if sy.term {
+				if !punct[sy.name] {
+					// a terminal that is an operator or carries a lexeme
+					if _, isPunct := punct[sy.name]; !isPunct {
+						others = false
+					}
+				}
+				continue
+			}
+			ss := ev.symSort(sy)
+			onlyNil := len(ss) == 0
+			if len(ss) == 1 {
+				_, onlyNil = ss[nilSort]
+			}
+			if !onlyNil {
+				carriers++
+			}
+		}
+		unit := (carriers == 1 && others) || len(cs.prod.body) == 1
+		for _, r := range returnsOf(cs.clause.Body) {
+			if len(r.Results) != 2 || !isNilExpr(info, r.Results[1]) {
+				continue
+			}
+			x := ast.Unparen(r.Results[0])
+			pass := false
+			if _, ok := ev.rhsVal(x); ok {
+				pass = true
+			}
+			if id, ok := x.(*ast.Ident); ok {
+				if _, ok := origins[info.Uses[id]]; ok {
+					// a variable that merely holds (an assertion of) an operand, not one it was appended to
+					appended := false
+					for _, st := range cs.clause.Body {
+						ast.Inspect(st, func(n ast.Node) bool {
+							if as, ok := n.(*ast.AssignStmt); ok && len(as.Lhs) == 1 && len(as.Rhs) == 1 {
+								if lid, ok := as.Lhs[0].(*ast.Ident); ok && (info.Defs[lid] == info.Uses[id] || info.Uses[lid] == info.Uses[id]) {
+									if call, ok := ast.Unparen(as.Rhs[0]).(*ast.CallExpr); ok {
+										if f, ok := call.Fun.(*ast.Ident); ok && f.Name == "append" {
+											appended = true
+										}
+									}
+								}
+							}
+							return true
+						})
+					}
+					pass = !appended
+				}
+			}
+			if pass {
+				c.Check("R11.2", fmt.Sprintf("%s: an operand is returned unchanged only by a unit or bracket production", key), r.Pos(), unit,
+					"the action returns one of its operands as the node for a production that has an operator or several value-carrying symbols: what the production adds (e.g. the empty alternative of a trailing bar) is missing from the typed tree",
+					"start = (a | b) | ;")
+			}
+		}
 		// (b) appended operands appear in body order
 		var seq []int
 		var seqPos []token.Pos
